@@ -1,0 +1,46 @@
+//! Facade for the roto-filter property (C10): the three verdict handlers
+//! with a caller-supplied compiled filter function installed, and the route
+//! explosion used to build `rib-in-pre` inputs. Re-exports and plain calls
+//! only; see `units/{rib_unit,bmp_tcp_in,bgp_tcp_in}/verif_hooks_c10.rs`.
+//! (`create_runtime`, `Ctx`, `Provenance`, `RotoOutputStream`, `Output` are
+//! already public in `roto_runtime`.)
+
+use bytes::Bytes;
+use routecore::bgp::message::UpdateMessage;
+
+use crate::payload::RotondaRoute;
+
+/// RIB unit: `RibUnitRunner` with `roto_function_pre` installed.
+pub mod rib {
+    pub use crate::units::rib_unit::unit::verif_hooks_c10::{
+        gate_process, mk_runner, process_update, rib, Rib, RibInPreFunc,
+        RibUnitRunner,
+    };
+}
+
+/// BMP: `RouterHandler` with `roto_function` installed.
+pub mod bmp {
+    pub use crate::units::bmp_tcp_in::verif_hooks_c10_export::{
+        gate_process, mk_handler, process_msg, state, BmpInFunc,
+        RouterHandler,
+    };
+}
+
+/// BGP: `Processor::process` over an in-memory session.
+pub mod bgp {
+    pub use crate::units::bgp_tcp_in::router_handler::verif_hooks_c10::{
+        run_session, BgpInFunc,
+    };
+}
+
+/// `explode_announcements` and `explode_withdrawals` (both `pub(crate)`),
+/// unchanged; errors mapped to their text.
+pub fn explode(
+    upd: &UpdateMessage<Bytes>,
+) -> Result<(Vec<RotondaRoute>, Vec<RotondaRoute>), String> {
+    let a = crate::roto_runtime::types::explode_announcements(upd)
+        .map_err(|e| e.to_string())?;
+    let w = crate::roto_runtime::types::explode_withdrawals(upd)
+        .map_err(|e| e.to_string())?;
+    Ok((a, w))
+}
